@@ -7,3 +7,18 @@ Print Assumptions C15.
 Example C15_instance : fsem (queens_form 4) (fun v => match v with 1 | 7 | 8 | 14 => true | _ => false end) = true
                        /\ fsem (queens_form 3) (fun v => match v with 0 | 5 | 7 => true | _ => false end) = false.
 Proof. split; vm_compute; reflexivity. Qed.
+
+(** at the level of the text: the token stream n_queens_gen prints (one list "[v, v, ..,] <= 1" or "= 1" per line with a trailing
+    comma inside, joined by "&", closed by "true") parses to exactly queens_form n, for every n *)
+From Coq Require Import List NArith.
+From Rsbdd Require Import Lang.Ast Syntax.Token Syntax.Parser Gen.GenText.
+Theorem C15_text n : parse (chain_tokens (queens_items n) ++ TEof :: nil) = Ok (queens_form n) nil.
+Proof. exact (GenText.C15_text n). Qed.
+Print Assumptions C15_text.
+Example C15_text_instance :
+  chain_tokens (queens_items 1) =
+  TOpenSquare :: TVar 0 :: TComma :: TCloseSquare :: TImpliesInv :: TNum 1%N :: TAnd ::
+  TOpenSquare :: TVar 0 :: TComma :: TCloseSquare :: TImpliesInv :: TNum 1%N :: TAnd ::
+  TOpenSquare :: TVar 0 :: TComma :: TCloseSquare :: TEq :: TNum 1%N :: TAnd ::
+  TOpenSquare :: TVar 0 :: TComma :: TCloseSquare :: TEq :: TNum 1%N :: TAnd :: TTrue :: nil.
+Proof. vm_compute. reflexivity. Qed.
